@@ -38,7 +38,10 @@ RULE = ("/proc/net/dev files printed by the kernel printer of coq/C09/Spec.v fro
         "net_io_counters(pernic=...) / disk_io_counters(perdisk=...) with the DEFAULT arguments over changing files: devices "
         "vanish for a poll and come back lower or higher, a poll lists nothing at all, pernic/perdisk alternate, counters of a "
         "device listed in consecutive polls never decrease (class steady/emptypoll: every poll must equal that poll's kernel "
-        "counters) or do decrease (class wrap: compared with the _WrapNumbers model only). Large tables generated inside Gallina "
+        "counters) or do decrease (class wrap) -- and churn histories: X listed, X restarts lower while listed (offset recorded), X "
+        "replaced by Z in a poll whose number of names does not shrink (rename / unplug+plug), X listed again, one more "
+        "growing poll; for ALL history classes every poll must equal the kernel counters plus the ghost offsets of "
+        "Spec.spec_wrap_hist (restarts seen while the device stayed listed; dropped when it is absent). Large tables generated inside Gallina "
         "from a compact seed (device k = 'd<k>', counters 1000k+j or 2^64-1-(32k+j)): /proc/diskstats of exactly 32768 bytes, "
         "with a line ending exactly at byte 32768 and 40 more lines, of 65537 bytes (625 lines), of 131 lines of 64-bit-wide "
         "counters (49 KB), a 150-interface wide /proc/net/dev with a line ending at 32768, a /sys/block of 150 disks "
@@ -60,8 +63,9 @@ ASSUMPTIONS = ["int() on a token containing a non-ASCII character (CPython accep
                "inputs are skipped as OutOfModel (they occur only in the malformed stream)",
                "CPython semantics of str.split/strip/rfind/int, dict insertion order, zip/sum and namedtuple are modelled, not verified",
                "numbers with more than 4300 digits are out of the model (CPython int() limit)",
-               "_wrap_numbers: modelled (cache rebinding, reminders, dead-key removal); the property demand over several polls is stated "
-               "only for histories without a decrease between consecutive polls -- genuine wraps belong to property C10",
+               "_wrap_numbers: modelled (cache rebinding, reminders, dead-key removal) and proved to compute the ghost offsets of "
+               "Spec.spec_wrap_hist for every history; whether those offsets are the right reading of a genuine 32/64-bit wrap is "
+               "property C10's question",
                "an IndexError inside _WrapNumbers.run (tuples of different length) cannot occur with the fixed-width tuples and is not "
                "modelled statefully",
                "percent is compared as round(exact rational, 1) with either neighbour accepted within 1e-6 of a tie (IEEE double "
@@ -631,9 +635,9 @@ def gen_cases(rng, tier):
     for _ in range(10 * N):
         add(_net_churn(rng))
         add(_disk_churn(rng))
-    for _ in range(22 * N):
+    for _ in range(16 * N):
         add(_net_hist(rng))
-    for _ in range(18 * N):
+    for _ in range(12 * N):
         add(_disk_hist(rng))
     # ---- disk_usage
     for _ in range(55 * N):
@@ -1045,7 +1049,7 @@ def _text_run(case, env):
 
 
 MANIFEST = {
-    "text": "Theorems (Coq 8.16, 23, closed under the global context) over a hand-written Gallina transcription of the anchored code, "
+    "text": "Theorems (Coq 8.16, 26, closed under the global context) over a hand-written Gallina transcription of the anchored code, "
             "text-mode reading included (UTF-8/surrogateescape decoding, universal newlines, str.split/strip blanks): for every list of "
             "interfaces whose names are any bytes not beginning/ending with a space and without line breaks -- proved to include every "
             "name dev_valid_name() accepts -- and every 16 digit strings per interface (no bound on magnitude or count), parsing the "
@@ -1062,7 +1066,9 @@ MANIFEST = {
             "the model's shifted reading is characterised exactly; the legacy name.strip() variant is refuted (fixed finding e02f4b0); "
             "successive calls with the default nowrap=True (_WrapNumbers modelled) report, for every history in which no counter "
             "decreases between consecutive polls while its device is listed, exactly each poll's kernel counters -- devices may vanish, "
-            "polls may be empty, devices may come back lower, pernic/perdisk may alternate; "
+            "polls may be empty, devices may come back lower, pernic/perdisk may alternate; for EVERY history (restarts included) "
+            "each poll equals the kernel counters plus the offsets of restarts seen while the device stayed listed, and one call of the "
+            "wrap bookkeeping leaves no offset for any name absent from the new dict whatever the sizes of the old and new sets; "
             "for any number of lines (no bound, hence no bound on the file size) the file has one line per device and the per-device "
             "answer one entry per line in file order (exercised on generated tables beyond the 32 KiB read buffer and beyond 64 KiB); "
             "the /sys/block fallback; disk_usage equals total/used/free/percent of the property for every statvfs tuple with f_frsize "
